@@ -19,7 +19,7 @@ A2C_KEY = bytes(range(32, 64))
 # verify outcomes -> code byte carried in TLV type 1 of the M2 reply
 VERIFY_CODES = {"ok": 0, "wrongid": 1, "badtag": 2, "badsig": 3, "auth": 4, "invalid": 5, "garbage": 6,
                 # answered like "ok"; what the accessory does to the session afterwards is up to the endpoint's handler
-                "okfin": 0, "okrst": 0}
+                "okfin": 0, "okrst": 0, "okbad": 0}
 
 
 def install_fake_verify():
